@@ -1,5 +1,6 @@
 import OmbottModel.Model.ErrorPageSpec
 import OmbottModel.Lemmas.ErrorPageServe
+import OmbottModel.Lemmas.ErrorPageShown
 /-!
 C20 — Framework error pages never reflect request data unescaped.
 Property theorems only; helper lemmas live in `Lemmas/ErrorPage*.lean`, the notions used in the
@@ -106,6 +107,12 @@ theorem page_url_inert (pr : Char → Bool) (e : ErrResp) :
   ⟨pagePre Gen.errorTemplateLines (e.status, strOpt e.body), pagePost Gen.errorTemplateLines (e.status, strOpt e.body),
    fun url => ⟨render_nodebug pr _ template_ok escape_tables_ok.1 e url,
                (urlCell_tokenized pr escape_tables_ok.1 url).inert⟩⟩
+
+/-- what the URL cell means to a browser: a strict HTML data reader sees no tag start in it and
+reads it as the URL itself, with `repr`'s backslash escapes on the non-special characters -/
+theorem page_url_shows_url (pr : Char → Bool) (url : Str) :
+    htmlText (urlCell pr url) = some (shownUrl pr url) :=
+  htmlData_urlCell pr escape_tables_ok.1 escape_tables_decode.1 url
 
 /-- `critical_page_inert`: the last-resort page (debug off) is two constants around the escaped
 `PATH_INFO`, whatever bytes the path consists of -/
